@@ -1,5 +1,6 @@
 SPECIFICATION Spec
 CONSTANTS
+  Bug = "none"
   MaxN = 20
   MaxD = 4
   ExtraB = 2
